@@ -48,6 +48,16 @@ claim("C04",
       "sibling cross-check of switch cases and tables over the clang AST, normalised expression-tree equality",
       "DESIGN.md section 3, C04 and appendix A")
 
+claim("C12",
+      "Table part only, by static tree comparison: row order/indexing of gjBValInfoTable (J1), the operator tree each row "
+      "generates against the C04 reference or against the constant the interpreter/C runtime use (J2), existence and arity "
+      "of every foamj.* method/constant named (J3), and that the Java generator's FOAM-tag dispatch keeps every case it had "
+      "when confirmed (J4). Behaviour of generated classes and bodies of the Java runtime methods are not decided.",
+      "Trusted: clang 14 front end; the Java declaration scanner (regex over method/field declarations of foamj/*.java); "
+      "values of java.lang constants and meanings of java.math.BigInteger methods as documented (tables in c12_java.py).",
+      "table lint + normalised expression-tree equality against the reference table; declaration scan of the Java runtime",
+      "DESIGN.md section 3, C12")
+
 PENDING_REASON = "check designed in DESIGN.md but not yet built in this tree; not claimed until it runs"
 
 
